@@ -82,3 +82,33 @@ func (s *simConn) RemoteAddr() Addr                   { return simAddr("client")
 func (s *simConn) SetDeadline(t time.Time) error      { return nil }
 func (s *simConn) SetReadDeadline(t time.Time) error  { return nil }
 func (s *simConn) SetWriteDeadline(t time.Time) error { return nil }
+
+type (
+	Error   = rnet.Error
+	OpError = rnet.OpError
+	TCPAddr = rnet.TCPAddr
+	IP      = rnet.IP
+)
+
+var ErrClosed = rnet.ErrClosed
+
+// Dial connects to the simulated listening socket (for code in pkg/server that would probe itself).
+func Dial(network, address string) (Conn, error) {
+	w := zsim.W
+	if w == nil || w.K == nil {
+		return rnet.Dial(network, address)
+	}
+	if len(w.K.Listeners) == 0 {
+		return nil, errors.New("connection refused")
+	}
+	c, err := w.K.Dial(w.K.Listeners[0])
+	if err != nil {
+		return nil, err
+	}
+	return &simConn{c: c, addr: simAddr(address)}, nil
+}
+
+func (l *TCPListener) SetDeadline(t time.Time) error { return nil }
+
+func JoinHostPort(host, port string) string                 { return rnet.JoinHostPort(host, port) }
+func SplitHostPort(hostport string) (string, string, error) { return rnet.SplitHostPort(hostport) }
